@@ -11,6 +11,7 @@ use std::panic::{catch_unwind, AssertUnwindSafe};
 
 thread_local! {
     static HELD: RefCell<Vec<Tr>> = RefCell::new(Vec::new());
+    static HELD_PL: RefCell<Vec<Pl>> = RefCell::new(Vec::new());
     static CALL_PANIC: RefCell<Option<u64>> = RefCell::new(None);
     static QUIET: RefCell<bool> = RefCell::new(false);
 }
@@ -55,6 +56,35 @@ impl Arg for &Tr {
     fn keep(self) {}
 }
 impl Arg for &mut Tr {
+    fn id(&self) -> u64 {
+        self.id
+    }
+    fn tag() -> &'static str {
+        "l"
+    }
+    fn keep(self) {}
+}
+impl Arg for Pl {
+    fn id(&self) -> u64 {
+        self.id
+    }
+    fn tag() -> &'static str {
+        "g"
+    }
+    fn keep(self) {
+        HELD_PL.with(|h| h.borrow_mut().push(self));
+    }
+}
+impl Arg for &Pl {
+    fn id(&self) -> u64 {
+        self.id
+    }
+    fn tag() -> &'static str {
+        "l"
+    }
+    fn keep(self) {}
+}
+impl Arg for &mut Pl {
     fn id(&self) -> u64 {
         self.id
     }
@@ -111,8 +141,8 @@ fn gen1(k: usize) -> Tr {
     Tr::new(1000 + k)
 }
 
-fn arr<N: ArrayLength>(base: u64) -> GenericArray<Tr, N> {
-    quiet(|| GenericArray::generate(|i| Tr::new(base + i as u64)))
+fn arr<E: Elem, N: ArrayLength>(base: u64) -> GenericArray<E, N> {
+    quiet(|| GenericArray::generate(|i| E::mk(base + i as u64)))
 }
 fn ids<'a, I: IntoIterator<Item = &'a Tr>>(it: I) -> String {
     show_nats(it.into_iter().map(|t| t.id))
@@ -179,13 +209,13 @@ fn finish<T>(r: std::thread::Result<T>, ok: impl FnOnce(T) -> (String, Vec<u64>)
     }
 }
 
-fn arr_out<N: ArrayLength>(a: GenericArray<Tr, N>) -> (String, Vec<u64>) {
-    let v: Vec<u64> = a.iter().map(|t| t.id).collect();
+fn arr_out<E: Elem, N: ArrayLength>(a: GenericArray<E, N>) -> (String, Vec<u64>) {
+    let v: Vec<u64> = a.iter().map(|t| t.eid()).collect();
     quiet(|| drop(a));
     ("ok".into(), v)
 }
-fn box_out<N: ArrayLength>(a: Box<GenericArray<Tr, N>>) -> (String, Vec<u64>) {
-    let v: Vec<u64> = a.iter().map(|t| t.id).collect();
+fn box_out<E: Elem, N: ArrayLength>(a: Box<GenericArray<E, N>>) -> (String, Vec<u64>) {
+    let v: Vec<u64> = a.iter().map(|t| t.eid()).collect();
     quiet(|| drop(a));
     ("ok".into(), v)
 }
@@ -232,9 +262,18 @@ impl Iterator for Scripted {
     }
 }
 
-fn run<N: ArrayLength>(kv: &KV) -> String {
+fn run<N: ArrayLength, A: Elem, B: Elem>(kv: &KV) -> String
+where
+    A: Arg,
+    B: Arg,
+    for<'x> &'x A: Arg,
+    for<'x> &'x mut A: Arg,
+    for<'x> &'x B: Arg,
+    for<'x> &'x mut B: Arg,
+{
     reset();
     HELD.with(|h| quiet(|| h.borrow_mut().clear()));
+    HELD_PL.with(|h| h.borrow_mut().clear());
     CALL_PANIC.with(|c| *c.borrow_mut() = None);
     POLLED_AFTER_NONE.with(|p| *p.borrow_mut() = false);
     let op = get(kv, "op");
@@ -267,56 +306,56 @@ fn run<N: ArrayLength>(kv: &KV) -> String {
         }
         "map" => match form {
             "o" => {
-                let a = arr::<N>(1);
-                inputs.extend(&a_ids);
+                let a = arr::<A, N>(1);
+                if A::NEEDS_DROP { inputs.extend(&a_ids); }
                 finish(catch_unwind(AssertUnwindSafe(|| a.map(|x| call1(&mut i, x)))), arr_out)
             }
             "r" => {
-                let a = arr::<N>(1);
+                let a = arr::<A, N>(1);
                 let r = finish(catch_unwind(AssertUnwindSafe(|| (&a).map(|x| call1(&mut i, x)))), arr_out);
                 quiet(|| drop(a));
                 r
             }
             "m" => {
-                let mut a = arr::<N>(1);
+                let mut a = arr::<A, N>(1);
                 let r = finish(catch_unwind(AssertUnwindSafe(|| (&mut a).map(|x| call1(&mut i, x)))), arr_out);
                 quiet(|| drop(a));
                 r
             }
             "b" => {
-                let a = quiet(|| Box::new(arr::<N>(1)));
-                inputs.extend(&a_ids);
+                let a = quiet(|| Box::new(arr::<A, N>(1)));
+                if A::NEEDS_DROP { inputs.extend(&a_ids); }
                 finish(catch_unwind(AssertUnwindSafe(|| a.map(|x| call1(&mut i, x)))), box_out)
             }
             _ => return "bad-form".into(),
         },
         "clone" => {
-            let a = arr::<N>(1);
+            let a = arr::<A, N>(1);
             let r = finish(catch_unwind(AssertUnwindSafe(|| a.clone())), arr_out);
             quiet(|| drop(a));
             r
         }
         "fold" => match form {
             "o" => {
-                let a = arr::<N>(1);
-                inputs.extend(&a_ids);
+                let a = arr::<A, N>(1);
+                if A::NEEDS_DROP { inputs.extend(&a_ids); }
                 finish(catch_unwind(AssertUnwindSafe(|| a.fold((), |_, x| callf(&mut i, x)))), |_| ("ok".into(), vec![]))
             }
             "r" => {
-                let a = arr::<N>(1);
+                let a = arr::<A, N>(1);
                 let r = finish(catch_unwind(AssertUnwindSafe(|| (&a).fold((), |_, x| callf(&mut i, x)))), |_| ("ok".into(), vec![]));
                 quiet(|| drop(a));
                 r
             }
             "m" => {
-                let mut a = arr::<N>(1);
+                let mut a = arr::<A, N>(1);
                 let r = finish(catch_unwind(AssertUnwindSafe(|| (&mut a).fold((), |_, x| callf(&mut i, x)))), |_| ("ok".into(), vec![]));
                 quiet(|| drop(a));
                 r
             }
             "b" => {
-                let a = quiet(|| Box::new(arr::<N>(1)));
-                inputs.extend(&a_ids);
+                let a = quiet(|| Box::new(arr::<A, N>(1)));
+                if A::NEEDS_DROP { inputs.extend(&a_ids); }
                 finish(catch_unwind(AssertUnwindSafe(|| a.fold((), |_, x| callf(&mut i, x)))), |_| ("ok".into(), vec![]))
             }
             _ => return "bad-form".into(),
@@ -329,67 +368,67 @@ fn run<N: ArrayLength>(kv: &KV) -> String {
             }
             match (form, form2) {
                 ("o", "o") => {
-                    let (a, b) = (arr::<N>(1), arr::<N>(101));
-                    inputs.extend(&a_ids);
-                    inputs.extend(&b_ids);
+                    let (a, b) = (arr::<A, N>(1), arr::<B, N>(101));
+                    if A::NEEDS_DROP { inputs.extend(&a_ids); }
+                    if B::NEEDS_DROP { inputs.extend(&b_ids); }
                     z!(a, b, arr_out)
                 }
                 ("o", "r") => {
-                    let (a, b) = (arr::<N>(1), arr::<N>(101));
-                    inputs.extend(&a_ids);
+                    let (a, b) = (arr::<A, N>(1), arr::<B, N>(101));
+                    if A::NEEDS_DROP { inputs.extend(&a_ids); }
                     let r = z!(a, &b, arr_out);
                     quiet(|| drop(b));
                     r
                 }
                 ("o", "m") => {
-                    let (a, mut b) = (arr::<N>(1), arr::<N>(101));
-                    inputs.extend(&a_ids);
+                    let (a, mut b) = (arr::<A, N>(1), arr::<B, N>(101));
+                    if A::NEEDS_DROP { inputs.extend(&a_ids); }
                     let r = z!(a, &mut b, arr_out);
                     quiet(|| drop(b));
                     r
                 }
                 ("r", "o") => {
-                    let (a, b) = (arr::<N>(1), arr::<N>(101));
-                    inputs.extend(&b_ids);
+                    let (a, b) = (arr::<A, N>(1), arr::<B, N>(101));
+                    if B::NEEDS_DROP { inputs.extend(&b_ids); }
                     let r = z!(&a, b, arr_out);
                     quiet(|| drop(a));
                     r
                 }
                 ("m", "o") => {
-                    let (mut a, b) = (arr::<N>(1), arr::<N>(101));
-                    inputs.extend(&b_ids);
+                    let (mut a, b) = (arr::<A, N>(1), arr::<B, N>(101));
+                    if B::NEEDS_DROP { inputs.extend(&b_ids); }
                     let r = z!(&mut a, b, arr_out);
                     quiet(|| drop(a));
                     r
                 }
                 ("r", "r") => {
-                    let (a, b) = (arr::<N>(1), arr::<N>(101));
+                    let (a, b) = (arr::<A, N>(1), arr::<B, N>(101));
                     let r = z!(&a, &b, arr_out);
                     quiet(|| drop((a, b)));
                     r
                 }
                 ("r", "m") => {
-                    let (a, mut b) = (arr::<N>(1), arr::<N>(101));
+                    let (a, mut b) = (arr::<A, N>(1), arr::<B, N>(101));
                     let r = z!(&a, &mut b, arr_out);
                     quiet(|| drop((a, b)));
                     r
                 }
                 ("m", "r") => {
-                    let (mut a, b) = (arr::<N>(1), arr::<N>(101));
+                    let (mut a, b) = (arr::<A, N>(1), arr::<B, N>(101));
                     let r = z!(&mut a, &b, arr_out);
                     quiet(|| drop((a, b)));
                     r
                 }
                 ("m", "m") => {
-                    let (mut a, mut b) = (arr::<N>(1), arr::<N>(101));
+                    let (mut a, mut b) = (arr::<A, N>(1), arr::<B, N>(101));
                     let r = z!(&mut a, &mut b, arr_out);
                     quiet(|| drop((a, b)));
                     r
                 }
                 ("b", "b") => {
-                    let (a, b) = quiet(|| (Box::new(arr::<N>(1)), Box::new(arr::<N>(101))));
-                    inputs.extend(&a_ids);
-                    inputs.extend(&b_ids);
+                    let (a, b) = quiet(|| (Box::new(arr::<A, N>(1)), Box::new(arr::<B, N>(101))));
+                    if A::NEEDS_DROP { inputs.extend(&a_ids); }
+                    if B::NEEDS_DROP { inputs.extend(&b_ids); }
                     z!(a, b, box_out)
                 }
                 _ => return "bad-form".into(),
@@ -425,7 +464,7 @@ fn run<N: ArrayLength>(kv: &KV) -> String {
             let front = get_usize(kv, "front").unwrap_or(0);
             let back = get_usize(kv, "back").unwrap_or(N::USIZE);
             let k = get_usize(kv, "arg").unwrap_or(0);
-            let mut it = arr::<N>(1).into_iter();
+            let mut it = arr::<Tr, N>(1).into_iter();
             quiet(|| {
                 for _ in 0..front {
                     it.next();
@@ -508,7 +547,22 @@ fn run<N: ArrayLength>(kv: &KV) -> String {
         *count.entry(*id).or_insert(0) += 1;
     }
     let mut orc: Vec<String> = Vec::new();
+    // plain element kinds have no destructor: only drop-tracked ids take part in the ledger
+    let tracked = |id: u64| -> bool {
+        if (1..=100).contains(&id) {
+            A::NEEDS_DROP || op.starts_with("iter_")
+        } else if (101..=499).contains(&id) {
+            B::NEEDS_DROP
+        } else if id >= 1000 && op == "clone" {
+            A::NEEDS_DROP
+        } else {
+            true
+        }
+    };
     for id in &existed {
+        if !tracked(*id) {
+            continue;
+        }
         let c = count.get(id).copied().unwrap_or(0);
         // with a panicking destructor, unwinding may abandon (leak) an element — allowed by C05;
         // a second drop never is
@@ -517,7 +571,7 @@ fn run<N: ArrayLength>(kv: &KV) -> String {
         }
     }
     for (id, c) in &count {
-        if !existed.contains(id) && *c > 0 {
+        if tracked(*id) && !existed.contains(id) && *c > 0 {
             orc.push(format!("ghost{}x{}", id, c));
         }
     }
@@ -554,8 +608,17 @@ fn run<N: ArrayLength>(kv: &KV) -> String {
 fn main() {
     serve("own", |kv| {
         let n = get_usize(kv, "n").unwrap_or(usize::MAX);
-        with_len!(n, N, run::<N>(kv), "unsupported-n".to_string();
+        with_len!(n, N, run_kinds::<N>(kv), "unsupported-n".to_string();
             0 => U0, 1 => U1, 2 => U2, 3 => U3, 4 => U4, 5 => U5, 6 => U6, 7 => U7, 8 => U8,
             16 => U16, 17 => U17, 33 => U33)
     });
+}
+
+fn run_kinds<N: ArrayLength>(kv: &KV) -> String {
+    match (get(kv, "kind"), get(kv, "kind2")) {
+        ("pl", "pl") => run::<N, Pl, Pl>(kv),
+        ("pl", _) => run::<N, Pl, Tr>(kv),
+        (_, "pl") => run::<N, Tr, Pl>(kv),
+        _ => run::<N, Tr, Tr>(kv),
+    }
 }
